@@ -29,15 +29,19 @@ class FolderHandler(Virtual):
     def prepare(self):
         self.entries = []
 
-        for index, message in enumerate(self.mbox, start=1):
-            handler = MessageHandler(
-                self.genargsselector(self.getargflag() + str(index)),
-                self.searchrequest,
-                self.protocol,
-                self.config,
-                None,
-            )
-            self.entries.append(handler.getentry(message))
+        try:
+            for index, message in enumerate(self.mbox, start=1):
+                handler = MessageHandler(
+                    self.genargsselector(self.getargflag() + str(index)),
+                    self.searchrequest,
+                    self.protocol,
+                    self.config,
+                    None,
+                )
+                self.entries.append(handler.getentry(message))
+        finally:
+            # Don't leave the mailbox file open until garbage collection.
+            self.mbox.close()
 
     def isdir(self):
         return True
@@ -102,8 +106,10 @@ class MessageHandler(Virtual):
             return self.message
 
         message = None
+        box = None
         try:
-            mailbox = iter(self.openmailbox())
+            box = self.openmailbox()
+            mailbox = iter(box)
             for _ in range(self.message_num):
                 message = next(mailbox)
         except (StopIteration, MailboxError):
@@ -111,6 +117,9 @@ class MessageHandler(Virtual):
             raise GopherExceptions.FileNotFound(
                 self.selector, "no such message", self.protocol
             )
+        finally:
+            if box is not None:
+                box.close()
 
         self.message = message
         return self.message
